@@ -183,6 +183,62 @@ var specs = map[string]Spec{
 		QuickFloors: map[string]int64{"overlap_cases": 150, "register_race_rounds": 50000, "overlap_rounds": 1000},
 		MaxSamples:  2,
 	},
+	"C12": {
+		Engine: "xlate", Run: "^TestNamespace$", Race: false,
+		QuickShards: 16, ThoroughShards: 16, QuickWatchdog: 8 * time.Minute, ThoroughWatchdog: 60 * time.Minute,
+		Level:     "exploration",
+		LevelText: "The real namespace translator (request and response side) runs on one minimal message per structural path to a namespace-name field for every request/response/stream message type of both services (paths enumerated from the protobuf descriptors, each message type at most twice per path), on every history-event path placed inside every history-event blob site (alone, between and before plain events), and on random populated messages; the result is compared with an independent descriptor-driven translator that has no skip list and no Go-field-name table. Any message on which the implementation's shortcut changes the outcome differs from the oracle by construction.",
+		LevelNote: "Trusted: the oracle's definition of a namespace-name field (string fields named namespace / workflow_namespace / parent_workflow_namespace and NamespaceInfo.name; 142 of the 180 *namespace* string fields in the closure, the rest are ids) and the reviewed table of 11 history-event blob sites. The assembled interceptor chain is covered by the wire engine.",
+		Technique: "runtime monitor: differential execution of the real translator against an independent protoreflect oracle over descriptor-enumerated paths + random messages",
+		DesignRef: "DESIGN.md §4 C12",
+		Rule:      "cases = one per root message type (all its paths and blob x event-path placements) + blocks of 50 random populated messages; distinct = distinct (root, path) and (root, blob path, event path) pairs; all non-trivial",
+		Exhaustive: "every structural path (recursion bound 2) to a namespace-name field in every request/response type of WorkflowService and AdminService, and every (blob site path x event path) pair",
+		Assumptions: []string{"events inside blobs carry an event_type that agrees with their attributes (as real histories do)"},
+		QuickFloors: map[string]int64{"path_cases": 1000, "blob_event_cases": 1000, "random_messages": 2000},
+		MaxSamples:  2,
+	},
+	"C13": {
+		Engine: "xlate", Run: "^TestFidelity$", Race: false,
+		QuickShards: 16, ThoroughShards: 16, QuickWatchdog: 8 * time.Minute, ThoroughWatchdog: 60 * time.Minute,
+		Level:     "exploration",
+		LevelText: "On random populated messages of every request/response type, for one-to-one mappings including chains (a->b, b->c), prefix/substring/case variants and unmapped names, and for both servers' (request, response) map pairs: after translation everything except namespace-name sites is unchanged (comparison with the name sites blanked, blobs decoded), a message with nothing to map is proto-equal including blob bytes, and request-side followed by response-side translation restores the original; the same for search-attribute keys on admin traffic. Every mapping list over a 4-name alphabet up to length 3 (4369 lists) is fed to the configuration loaders: accepted iff no local and no remote name repeats.",
+		LevelNote: "In-process part. Which map each assembled server actually receives (direction wiring in NewClusterConnection) is observed end to end by the wire engine. Round trips are checked on the only domain on which a bijection on names is invertible: names that are keys of the request map or outside keys and values.",
+		Technique: "runtime monitor: metamorphic oracles (blank-and-compare, round-trip identity, no-op identity) on the real translators over random messages + exhaustive small configuration space",
+		DesignRef: "DESIGN.md §4 C13",
+		Rule:      "cases = blocks of 50 random messages x 4 mappings x 2 servers, + one exhaustive configuration block; distinct = (root type, mapping, server) triples that actually contained a mapped name + distinct configuration lists",
+		Exhaustive: "all namespace / search-attribute mapping lists over {a,b,c,d} of length <= 3",
+		Assumptions: []string{"oracle's definition of namespace-name sites and search-attribute containers (gen package)"},
+		QuickFloors: map[string]int64{"messages": 5000, "messages_with_mapped_names": 500, "round_trips_ok": 4000, "mapping_lists": 4369},
+		MaxSamples:  2,
+	},
+	"C14": {
+		Engine: "xlate", Run: "^TestSA$", Race: false,
+		QuickShards: 16, ThoroughShards: 16, QuickWatchdog: 8 * time.Minute, ThoroughWatchdog: 60 * time.Minute,
+		Level:     "exploration",
+		LevelText: "The real search-attribute translator runs on one message per structural path to a search-attributes container (typed SearchAttributes and bare map<string,Payload>) in every AdminService request/response type, on every container path of a history event placed in every history-blob site, and on random admin messages; expected result from an independent oracle: mapped keys renamed to their counterpart (direction by request/response side), unmapped keys and all payloads untouched, key count preserved. For every WorkflowService method, messages with mapped keys go through the real TranslationInterceptor (MatchMethod consulted as in production) and must come out unchanged.",
+		LevelNote: "Key sets never contain an unmapped key equal to a mapping target (the property's domain). AddSearchAttributesRequest (map<string,IndexedValueType>) and RemoveSearchAttributesRequest ([]string) are not containers in the property's sense; the translator's 'unhandled type' error on them is recorded as an observation in DESIGN.md, not judged.",
+		Technique: "runtime monitor: differential execution of the real search-attribute translator against an independent key-renaming oracle over descriptor-enumerated container paths + random messages",
+		DesignRef: "DESIGN.md §4 C14",
+		Rule:      "cases = one per root type (all container paths, blob x event container paths; exclusion clause for workflow-service types) + random blocks; distinct = (root, path) pairs",
+		Exhaustive: "every structural path (recursion bound 2) to a search-attributes container in AdminService messages, every event container path in every blob site, every WorkflowService method for the exclusion clause",
+		Assumptions: []string{"oracle's definition of search-attribute containers: fields named search_attributes of type SearchAttributes or map<string,Payload>"},
+		QuickFloors: map[string]int64{"sa_path_cases": 20, "sa_blob_cases": 50, "workflow_service_exclusion_cases": 20, "sa_random_messages": 1500},
+		MaxSamples:  2,
+	},
+	"C16": {
+		Engine: "xlate", Run: "^TestACL$", Race: false,
+		QuickShards: 16, ThoroughShards: 16, QuickWatchdog: 8 * time.Minute, ThoroughWatchdog: 60 * time.Minute,
+		Level:     "exploration",
+		LevelText: "For every unary request type of both services and every structural path to a namespace name (also inside every history-blob site), the real interceptors composed in production order (translation, then access control, then a recording handler) are called with that one site naming a forbidden namespace (must be PermissionDenied and the handler not reached) and naming the allowed one (must be forwarded); four variants: no translation, translation with names given in remote form (only a check running after translation decides right), remote-looking-allowed-but-unmapped names, and the translation-bypass header. Random populated requests with all sites allowed and then one flipped cover combinations. ListNamespaces through the real workflow-service handler must return exactly the allowed namespaces (in remote form).",
+		LevelNote: "In-process part: that the assembled inbound server really installs the chain in this order, on both transports, is observed by the wire engine (C15/C16). Empty names are recorded, not judged.",
+		Technique: "runtime monitor: exhaustive path-wise probing of the real interceptor chain with a recording terminal handler (reached / not reached, status code)",
+		DesignRef: "DESIGN.md §4 C16",
+		Rule:      "cases = one per unary method (all paths x 4 variants x {forbidden, allowed}, blob x event paths, random combinations) + ListNamespaces block; distinct = (method, variant, path) triples",
+		Exhaustive: "every structural path (recursion bound 2) to a namespace-name field in every unary request type; every event path in every blob site (quick: all for the translated variant, every second one for the others)",
+		Assumptions: []string{"oracle's definition of namespace-name sites (gen package)"},
+		QuickFloors: map[string]int64{"acl_calls": 3000, "denied": 1400, "forwarded": 1400, "list_namespaces_calls": 300},
+		MaxSamples:  2,
+	},
 	"C05": {
 		Engine: "ringmodel", Run: "^TestRing$", Race: false,
 		QuickShards: 16, ThoroughShards: 16, QuickWatchdog: 5 * time.Minute, ThoroughWatchdog: 40 * time.Minute,
